@@ -92,6 +92,10 @@ SINKS: Dict[str, Tuple[str, Callable[[str], str], bool]] = {
     'rst-version-argument': ('restructuredtext', lambda P: f'def f():\n    r\'\'\'Doc.\n\n    .. versionadded:: {P}\n\n    .. deprecated:: 1.0 {P}\n    \'\'\'\n', False),
     'rst-admonition-title': ('restructuredtext', lambda P: f'def f():\n    r\'\'\'Doc.\n\n    .. admonition:: {P}\n\n       body\n    \'\'\'\n', False),
     'google-code-language': ('google', lambda P: f'def f():\n    r\'\'\'Doc.\n\n    Example:\n        .. code:: {P}\n\n            x = 1\n    \'\'\'\n', False),
+    # mathematics: the formula text goes through docutils' math-to-HTML converter
+    'math-epy':        ('epytext', lambda P: f'def f():\n    r\'\'\'Doc M{{\\text{{{P}}}}} and M{{{P}}} end.\'\'\'\n', False),
+    'math-rst':        ('restructuredtext', lambda P: f'def f():\n    r\'\'\'Doc :math:`\\text{{{P}}}` and :math:`{P}` end.\'\'\'\n', False),
+    'math-block-rst':  ('restructuredtext', lambda P: f'def f():\n    r\'\'\'Doc.\n\n    .. math::\n\n       \\text{{{P}}} + \\colorbox{{{P}}}{{y}} + \\href{{{P}}}{{x}}\n    \'\'\'\n', False),
     'annotation':      ('epytext', lambda P: f'def f(a: {pylit(P)}, b: "List[{P}]" = 1) -> {pylit(P)}: pass\nv: {pylit(P)} = 1\n', False),
     'literal-ann':     ('epytext', lambda P: f'from typing import Literal\ndef f(a: Literal[{pylit(P)}]) -> Literal[{pylit(P)}]: pass\n', False),
     'type-comment':    ('epytext', lambda P: f'v = 1 # type: {P}\n', False),
@@ -129,7 +133,7 @@ SINKS.update({
 })
 # the author wrote these values as link targets: what the URL does is theirs (statement), breaking out of the attribute is not
 AUTHOR_URL = {'rst-link-target', 'rst-target-def', 'rst-image-uri', 'rst-image-target', 'google-link-target', 'epy-url-target'}
-VALUE_SINKS = AUTHOR_URL | {'rst-image-alt', 'rst-class-option', 'numpy-image-alt', 'rst-code-language', 'rst-codeblock-language', 'rst-version-argument', 'rst-admonition-title', 'google-code-language'}
+VALUE_SINKS = AUTHOR_URL | {'rst-image-alt', 'rst-class-option', 'numpy-image-alt', 'rst-code-language', 'rst-codeblock-language', 'rst-version-argument', 'rst-admonition-title', 'google-code-language', 'math-epy', 'math-rst', 'math-block-rst'}
 
 # sinks that need their own runner
 SPECIAL = ['file-name', 'project-name', 'project-url', 'project-version', 'html-viewsource-base', 'intersphinx-free']
